@@ -1,0 +1,31 @@
+//go:build verif
+
+package transport
+
+import "time"
+
+// Hooks for the C06 correspondence check (add-only, compiled only with -tags verif).
+
+// VerifC06Stats reports the size of the idle set, the size of the all-connections set, and how
+// many connections of the all-connections set have their serving / closed flag set.
+func (t *ReuseConnTransport) VerifC06Stats() (idle, all, serving, closed int) {
+	t.m.Lock()
+	defer t.m.Unlock()
+	idle = len(t.idleConns)
+	all = len(t.conns)
+	for c := range t.conns {
+		c.m.Lock()
+		if c.serving {
+			serving++
+		}
+		if c.closed {
+			closed++
+		}
+		c.m.Unlock()
+	}
+	return
+}
+
+// VerifC06SetRespTimeout sets the per-exchange I/O deadline (reuseConnQueryTimeout when zero).
+// Must be called before the first exchange.
+func (t *ReuseConnTransport) VerifC06SetRespTimeout(d time.Duration) { t.testRespTimeout = d }
